@@ -6,16 +6,27 @@ props = [json.loads(l) for l in open(os.path.join(HERE, 'properties.jsonl'))]
 
 TECH = 'symbolic execution of the real code over object arrays + z3 QF_NRA (unsat for all values within bounds; sat replayed on float code)'
 
-CLAIMED = {
- # id: (level text, level note, design ref)
- 'C01': ('Bounded symbolic verification: for each overloaded function and each (D,P,shape) in the bound, the real '
-         'recurrences are executed on fully symbolic coefficients and every output coefficient is proved (z3 unsat) equal '
-         'to the Taylor-theorem composition oracle for ALL real coefficient values with x0 in the domain; kinked functions '
-         'on every sign/order path.',
-         'floats read as reals; D<=5 quick / <=8 thorough, P<=3, shapes up to (2,2); definedness (x0 in open domain); '
-         'special functions as uninterpreted atoms with textbook derivative rules; stubs validated numerically against the float build each run',
-         '4 C01'),
+BUILT = ['C01', 'C02', 'C11', 'C12', 'C15', 'C16', 'C17']
+FLOATS = 'floats read as reals (rounding/NaN/overflow outside the claim); definedness assumed (non-zero divisors, arguments in the open domain); '
+TEXTS = {
+ 'C01': ('for each overloaded function and each (D,P,shape) in the bound the real recurrences run on fully symbolic (real and complex) coefficients and every output '
+         'coefficient is proved (z3 unsat) equal to the Taylor-theorem composition oracle for ALL coefficient values with x0 in the domain; kinked functions on every sign/order path',
+         FLOATS + 'D<=5 quick / <=8 thorough, P<=3, shapes up to (2,2); special functions are uninterpreted atoms with textbook derivative rules', '4 C01'),
+ 'C02': ('every operator x operand kind x position x broadcast shape pair in the bound is executed on symbolic operands; sums/differences/Cauchy products and the quotient\'s defining equation z*y=x are proved '
+         'for all real/complex values; reflected and in-place forms proved equal to the binary expression; logical result dtype and imaginary parts checked',
+         FLOATS + 'D<=3 quick / <=5 thorough, P<=2, shapes from a fixed list incl. constant arrays with more dims than the polynomial; complex scalar exponents not covered', '4 C02'),
+ 'C11': ('each catalogued operation is run on P directions with independent symbols (incl. independent base points) and on each direction alone; equality of all coefficients is decided for all values; '
+         'term support shows no symbol of another direction occurs', FLOATS + 'operation catalogue in symx/ops.py, D<=3/4, P<=2/3', '4 C11'),
+ 'C12': ("each catalogued operation at degree D and at every D'<D on the truncated symbolic input: first D' coefficients proved equal; coefficient d shown to mention no input symbol of order > d",
+         FLOATS + 'operation catalogue in symx/ops.py, D<=4 quick / <=6 thorough', '4 C12'),
+ 'C15': ('tables from the real generator for every (N,d) in the bound; completeness decided over symbolic integer multi-indices (LIA), reconstruction of the degree-d part of EVERY polynomial decided over symbolic coefficient vectors (LRA) with tolerance 1e-9',
+         'Gamma is a float table (exact binary values, tolerance 1e-9); (N,d) with binomial(N+d-1,d)<=21 quick / <=56 thorough', '4 C15'),
+ 'C16': ('the closed forms run on a symbolic point; order 0 == base function and order k+1 == d/dx(order k) proved for all x in the declared domain with an independent DAG differentiator; piecewise functions on every path; out= aliasing',
+         FLOATS + 'n<=5 quick / <=9 thorough; (a,b,m) from small grids; tan/tanh not exported without mpmath', '4 C16'),
+ 'C17': ('round trips executed on arrays of distinct symbols: output term == input symbol at the specified position; pivot helpers on every feasible pivot path of a symbolic LU (all N! paths, N<=3 quick / 4 thorough) against P L U = A and Leibniz det, plus all N! pivot vectors enumerated for N<=4/6',
+         FLOATS + 'shapes <=3-D, D<=4, P<=3', '4 C17'),
 }
+CLAIMED = {k: TEXTS[k] for k in BUILT}
 NOT_YET = 'check not built yet in this session (work in progress; the property is within reach of the technique, see DESIGN.md section 4)'
 
 checks = []
